@@ -10,6 +10,45 @@ NOTE = ("Trusted base: Python semantics as modelled by sa/cfg.py (statement CFG 
         "structural necessary conditions, not the behaviour; see DESIGN.md section 3 for 'decides / does not decide'.")
 
 CHECKS = {
+    "C13": dict(
+        text="Static: taint analysis with implicit flows and origin tracking over graph.py and walk.py: no continue/break/"
+             "return/skipped push of a traversal is control dependent on a test reading a commit timestamp (walk.py: unless "
+             "the originating test is guarded by the since/until/exclusion option the statement exempts). Quantifies over "
+             "all clocks at once, where a test samples a few timestamp assignments. Does not decide that the LCA flag "
+             "propagation is right for every exploration order.",
+        technique="taint with implicit flows (control dependence) and origin tracking, field-sensitive access paths",
+        ref="3 C13"),
+    "C16": dict(
+        text="Static: partial evaluation of every backend's set_if_equals/remove_if_equals under the fact old_ref is None "
+             "(no `return False` reachable), totality of the conditional methods, ZERO_SHA defaulting agreed by all sibling "
+             "backends, override completeness and signature compatibility against the abstract base, the "
+             "git-check-ref-format rule table extracted from check_ref_format, packed-refs writer/reader grammar agreement. "
+             "Does not decide equality with the map model over operation sequences.",
+        technique="partial evaluation under a fact; sibling cross-check; table extraction vs frozen reference",
+        ref="3 C16"),
+    "C17": dict(
+        text="Static: taint from tree paths and index keys through the tree-path -> fs-path conversions to every mutating "
+             "file-system sink (helpers summarised to depth 3, sinks attributed by reaching definitions); both sanitizers "
+             "(validate_path, verify_leading_dirs) must dominate, for the same path. Plus symlink-at-leaf, mode "
+             "canonicalisation and validator-not-optional rules. Covers every site and path; does not decide that the "
+             "element validators reject exactly the dangerous spellings.",
+        technique="taint / sanitizer dominance with reaching definitions and interprocedural sink summaries",
+        ref="3 C17"),
+    "C19": dict(
+        text="Static: bound of the encoded length field by a dominating raising test, coherence of framing constants, "
+             "decoder ordering (flush before <4, payload only for size>=4, obtained length compared), a single strict "
+             "hex length parser (who-may), non-emptiness before the side-band channel byte, flush sentinel by identity. "
+             "Does not decide reassembly under arbitrary read chunking.",
+        technique="constant-table agreement, dominance of bound tests, who-may-call",
+        ref="3 C19"),
+    "C20": dict(
+        text="Static: the writer's escape table is extracted from _escape_value and must be inverted by the reader's "
+             "_ESCAPE_TABLE; every byte the reader's dispatch treats specially outside quotes (anywhere or at an edge, "
+             "including what bytes.strip() removes) must be escaped or force quoting in _format_string; subsection escapes "
+             "and escape-awareness of every quote-toggling scanner. Covers all 256 bytes at once - exactly where the "
+             "existing hypothesis test's alphabet stops. Does not decide what git itself reads.",
+        technique="writer/reader constant-table extraction and set relations; sibling scanner cross-check",
+        ref="3 C20"),
     "C06": dict(
         text="Static: RESULT-USED over every conditional compare-and-swap in the push-serving functions (found by role), "
              "must-pass-through from each CAS's failure and exception outcome to the per-ref status emission, dominance of a "
